@@ -114,6 +114,9 @@ pub enum TyperError {
     /// Semantic not allowed in this position
     UnexpectedSemantic(SourceLocation),
 
+    /// bindless attribute not allowed in this position
+    UnexpectedBindless(SourceLocation),
+
     /// Attribute on a function has an unknown name
     FunctionAttributeUnknown(String, SourceLocation),
 
@@ -765,6 +768,11 @@ impl CompileError for TyperExternalError {
             ),
             TyperError::UnexpectedSemantic(loc) => w.write_message(
                 &|f| write!(f, "semantic is not allowed here"),
+                *loc,
+                Severity::Error,
+            ),
+            TyperError::UnexpectedBindless(loc) => w.write_message(
+                &|f| write!(f, "bindless is not allowed here"),
                 *loc,
                 Severity::Error,
             ),
